@@ -7,11 +7,13 @@ V = Path(__file__).resolve().parent.parent
 props = [json.loads(l) for l in (V / "properties.jsonl").read_text().splitlines() if l.strip()]
 na_file = V / "manifest.d" / "not_applicable.json"
 na_reasons = json.loads(na_file.read_text()) if na_file.exists() else {}
+ready_file = V / "manifest.d" / "ready.json"
+ready = set(json.loads(ready_file.read_text())) if ready_file.exists() else None   # properties whose check is finished and reviewed
 checks, na = [], []
 for p in props:
     pid = p["id"]
     frag = V / "manifest.d" / f"{pid}.json"
-    if frag.exists() and (V / "harness" / "props" / f"{pid.lower()}.py").exists():
+    if frag.exists() and (V / "harness" / "props" / f"{pid.lower()}.py").exists() and (ready is None or pid in ready):
         f = json.loads(frag.read_text())
         checks.append({
             "property_id": pid,
@@ -45,6 +47,8 @@ m = {
 # known findings: fragments known_findings.d/*.json -> known_findings.json (the committed file the checks read)
 kf = []
 for f in sorted((V / "known_findings.d").glob("*.json")):
+    if ready is not None and f.stem != "_fixed" and f.stem not in ready:
+        continue
     kf.extend(json.loads(f.read_text()))
 (V / "known_findings.json").write_text(json.dumps({
     "comment": "status=known: a genuine defect of the unchanged tree, printed as KNOWN-FINDING and not counted as a violation when the shrunk failing case matches `signature` (a regex over the check's case signature); status=fixed: repaired by the named 'fix:' commit in /repo, suppresses nothing",
